@@ -4,7 +4,9 @@ import (
 	"fmt"
 	"go/ast"
 	"go/constant"
+	"go/token"
 	"go/types"
+	"os"
 	"sort"
 	"strings"
 )
@@ -350,4 +352,150 @@ func (p *Prog) bytesLiteral(e ast.Expr) (string, bool) {
 		return string(b), true
 	}
 	return "", false
+}
+
+// digits.fmtF by interpretation on concrete digit strings: for digits "d1..dn" with decimal exponent e and a
+// precision that covers the fraction (what every caller passes after rounding), the text produced must be
+// the positional numeral: integer part (or 0), '.', the fraction padded with zeros to the precision.
+func ruleFmtF(c *Ctx) {
+	p := c.P
+	props := []string{"C06", "C07", "C13"}
+	fd := c.fn("digits.fmtF")
+	if fd == nil {
+		return
+	}
+	ps := paramObjs(p, fd)
+	recv := recvObj(p, fd)
+	if len(ps) != 8 || recv == nil {
+		c.undecided("fmtf.shape", fd, "fmtF(buf, prec, width, forceDP, printSign, padSign, padRight, padZero) expected", props...)
+		return
+	}
+	bad := ""
+	n := 0
+	for _, digs := range []string{"", "7", "25", "123", "9000001"} {
+		for e := -9; e <= 5 && bad == ""; e++ {
+			if digs == "" && e != 0 {
+				continue
+			}
+			for prec := 0; prec <= 11 && bad == ""; prec++ {
+				if -e > prec {
+					continue // callers round to the precision first: the fraction never exceeds it
+				}
+				for _, forceDP := range []bool{false, true} {
+					for _, neg := range []bool{false, true} {
+						in := newInterp(p)
+						in.exact = true
+						in.intrinsics["builtin.append"] = func(in *interp, st *state, call *ast.CallExpr, recv AV, args []AV) ([]AV, bool) {
+							s, ok := args[0].(avStr)
+							if !ok {
+								return []AV{top}, true
+							}
+							out := s.s
+							for i, a := range args[1:] {
+								switch v := a.(type) {
+								case avInt:
+									if v.v < 0 || v.v > 255 {
+										return []AV{top}, true
+									}
+									out += string(rune(v.v))
+								case avStr:
+									if call.Ellipsis == token.NoPos || i != 0 {
+										return []AV{top}, true
+									}
+									out += v.s
+								default:
+									return []AV{top}, true
+								}
+							}
+							return []AV{avStr{out}}, true
+						}
+						in.intrinsics["builtin.make"] = func(in *interp, st *state, call *ast.CallExpr, recv AV, args []AV) ([]AV, bool) {
+							return []AV{avStr{""}}, true
+						}
+						in.intrinsics["builtin.cap"] = func(in *interp, st *state, call *ast.CallExpr, recv AV, args []AV) ([]AV, bool) {
+							return []AV{avInt{0}}, true
+						}
+						in.intrinsics["digits.pad"] = func(in *interp, st *state, call *ast.CallExpr, recv AV, args []AV) ([]AV, bool) {
+							return []AV{args[0]}, true // width 0: no padding (decided by E10.flags / the pad rule)
+						}
+						st := newState()
+						st.vars[recv] = avRef{"d"}
+						st.flds["ref:d.neg"] = avBool{neg}
+						st.flds["ref:d.dig"] = avStr{digs}
+						st.flds["ref:d.exp"] = avInt{int64(e)}
+						st.flds["ref:d.ndig"] = avInt{int64(len(digs))}
+						st.vars[ps[0]] = avStr{""}
+						st.vars[ps[1]] = avInt{int64(prec)}
+						st.vars[ps[2]] = avInt{0}
+						st.vars[ps[3]] = avBool{forceDP}
+						for _, fo := range ps[4:] {
+							st.vars[fo] = avBool{false}
+						}
+						in.curFn = append(in.curFn, fd)
+						flows := in.execBlock(fd.Body.List, st)
+						n++
+						// reference
+						want := ""
+						if neg {
+							want = "-"
+						}
+						dp := len(digs) + e
+						switch {
+						case digs == "":
+							want += "0"
+						case dp > 0 && len(digs) > dp:
+							want += digs[:dp]
+						case dp > 0:
+							want += digs + strings.Repeat("0", dp-len(digs))
+						default:
+							want += "0"
+						}
+						frac := ""
+						if digs != "" {
+							if dp < 0 {
+								frac = strings.Repeat("0", -dp) + digs
+							} else if len(digs) > dp {
+								frac = digs[dp:]
+							}
+						}
+						if prec > 0 {
+							if len(frac) > prec {
+								continue // not a call the library makes
+							}
+							want += "." + frac + strings.Repeat("0", prec-len(frac))
+						} else if forceDP {
+							want += "."
+						}
+						got := "?"
+						okFlow := len(flows) == 1 && flows[0].kind == flowReturn && !in.overflow
+						if okFlow {
+							if s, ok := flows[0].ret.(avStr); ok {
+								got = s.s
+							} else if tup, ok := flows[0].ret.(*avTuple); ok && len(tup.vs) == 1 {
+								if s, ok := tup.vs[0].(avStr); ok {
+									got = s.s
+								}
+							}
+						}
+						if got != want {
+							if os.Getenv("DVERIF_DEBUG_FMTF") != "" {
+								for _, f := range flows {
+									fmt.Println("FLOW", f.kind, f.ret, in.overflow)
+									if f.ret != nil {
+										fmt.Println("   ", f.ret.avKey())
+									}
+								}
+							}
+							bad = fmt.Sprintf("digits %q with exponent %d, precision %d, forceDP=%v, negative=%v are written as %q, want %q", digs, e, prec, forceDP, neg, got, want)
+							break
+						}
+					}
+					if bad != "" {
+						break
+					}
+				}
+			}
+		}
+	}
+	c.check(bad == "", "fmtf.text", fd, fmt.Sprintf("fmtF writes the positional numeral for every digit string, exponent and precision tried (%d evaluations against a reference)", n), "digits.fmtF: "+bad, props...)
 }
